@@ -198,6 +198,10 @@ def check(case, impl, repo=None):
     for name, f in sorted(fns.items()):
         for sh in f["shadow"]:
             kind, n = sh.split(":", 1)
+            if kind == "d":
+                return "the Metal text is not the HLSL text under the threading / reference rules: %s receives two globals called `%s` as parameters of one name" % (name, n)
+            if kind == "g":
+                return "the Metal text is not the HLSL text under the threading / reference rules: %s receives the global `%s` as a parameter, which hides another global of that name that its body uses" % (name, n)
             if kind == "l":
                 return "the Metal text is not the HLSL text under the threading / reference rules: %s receives the global `%s` as a parameter and has a parameter or local of the same name" % (name, n)
             return "the Metal text is not the HLSL text under the threading / reference rules: the method %s receives the global `%s` as a parameter, which hides the struct member `%s` in its body" % (name, n, n)
